@@ -32,6 +32,11 @@ def jobs_for(prop):
                     jobs.append({"id": f"{prop}-inflight-{mode}-{change}-{via}-{'warm' if warm else 'cold'}", "prop": prop,
                                  "mode": mode, "change": change, "via": via, "warm": warm})
     if prop == "C05":
+        # the running method unregisters itself, then recurses (by recurse / by name) with an argument of its own class
+        for via in ("recurse", "name"):
+            for warm in (False, True):
+                jobs.append({"id": f"C05-inflight-plain-selfunregister-{via}-{'warm' if warm else 'cold'}", "prop": prop,
+                             "mode": "plain", "change": "unregister", "via": via, "warm": warm, "selfunreg": True})
         # the method registered during the call is the function's first type[...] method; the recursion passes a class
         for via in ("recurse", "name"):
             for warm in (False, True):
